@@ -17,21 +17,24 @@ Record arith := {
   mulv : T -> T -> T;                       (* a * b      (value * value) *)
   divv : T -> T -> res T;                   (* a / b      (dunder_truediv) *)
   floordivv : T -> T -> res T;              (* a // b *)
-  kmul : T -> T -> rnd -> T;                (* V.mul(a, b, round=...) *)
-  kdiv : T -> T -> rnd -> res T;            (* V.div *)
-  kmuldiv : T -> T -> T -> rnd -> res T;    (* V.muldiv *)
+  kmul : T -> T -> bool -> T;               (* V.mul(a, b, round='up' if flag else 'down') *)
+  kdiv : T -> T -> bool -> res T;           (* V.div *)
+  kmuldiv : T -> T -> T -> bool -> res T;   (* V.muldiv *)
   eqv : T -> T -> bool; ltv : T -> T -> bool; lev : T -> T -> bool;
   gtv : T -> T -> bool; gev : T -> T -> bool;
   truth : T -> bool;                        (* bool(v) *)
-  vmin : list T -> res T;                   (* V.min(list) *)
+  vmin : T -> list T -> T;                  (* V.min(x :: l): the rules only call it on non-empty lists *)
   epsilon : T;                              (* V.epsilon (meaningful only when not exact) *)
   exact : bool;
-  aname : string;
-  ainfo : string;
   str : T -> string;                        (* str(v) *)
-  raw_repr : T -> string;                   (* canonical internal representation, for traces *)
-  areport : string -> string -> string      (* V.report() given maxDiff and minDiff as text *)
+  raw_repr : T -> string                    (* canonical internal representation, for traces *)
 }.
+
+(* the rules pass the literal round='up' / round='down' only *)
+Definition rnd_of (up : bool) : rnd := if up then RUp else RDown.
+
+(* what the renderers (not the count) read from the arithmetic class *)
+Record arith_meta := { aname : string; ainfo : string; areport : string -> string -> string }.
 
 Definition nev (A : arith) (a b : T A) : bool := negb (eqv A a b).
 
@@ -64,22 +67,23 @@ Definition Fixed (p d : Z) : arith :=
      mulv := fun a b => unres 0 (FixedKernels.dunder_mul st a (OVal b));
      divv := fun a b => FixedKernels.dunder_truediv st a (OVal b);
      floordivv := fun a b => FixedKernels.dunder_floordiv st a (OVal b);
-     kmul := fun a b r => unres 0 (FixedKernels.mul st (OVal a) (OVal b) r);
-     kdiv := fun a b r => FixedKernels.div st (OVal a) (OVal b) r;
-     kmuldiv := fun a b c r => FixedKernels.muldiv st (OVal a) (OVal b) (OVal c) r;
+     kmul := fun a b up => unres 0 (FixedKernels.mul st (OVal a) (OVal b) (rnd_of up));
+     kdiv := fun a b up => FixedKernels.div st (OVal a) (OVal b) (rnd_of up);
+     kmuldiv := fun a b c up => FixedKernels.muldiv st (OVal a) (OVal b) (OVal c) (rnd_of up);
      eqv := fun a b => res_true (FixedKernels.dunder_eq st a (OVal b));
      ltv := fun a b => res_true (FixedKernels.dunder_lt st a (OVal b));
      lev := fun a b => res_true (FixedKernels.dunder_le st a (OVal b));
      gtv := fun a b => res_true (FixedKernels.dunder_gt st a (OVal b));
      gev := fun a b => res_true (FixedKernels.dunder_ge st a (OVal b));
      truth := fun a => res_true (FixedKernels.dunder_bool st a);
-     vmin := FixedKernels.min st;
+     vmin := fun x l => unres x (FixedKernels.min st (x :: l));
      epsilon := 1;
      exact := false;
-     aname := if p =? 0 then "integer"%string else "fixed"%string;
-     ainfo := fixed_info p (fixed_display p d);
      str := fixed_str st;
-     raw_repr := string_of_Z;
+     raw_repr := string_of_Z |}.
+Definition FixedMeta (p d : Z) : arith_meta :=
+  {| aname := if p =? 0 then "integer"%string else "fixed"%string;
+     ainfo := fixed_info p (fixed_display p d);
      areport := fun _ _ => EmptyString |}.
 
 (* ---------------------------------------------------------------- Guarded *)
@@ -126,22 +130,24 @@ Definition Guarded (p g d stale : Z) : arith :=
      mulv := fun a b => unres 0 (GuardedKernels.dunder_mul st a (OVal b));
      divv := fun a b => GuardedKernels.dunder_truediv st a (OVal b);
      floordivv := fun a b => GuardedKernels.dunder_floordiv st a (OVal b);
-     kmul := fun a b r => unres 0 (GuardedKernels.mul st (OVal a) (OVal b) r);
-     kdiv := fun a b r => GuardedKernels.div st (OVal a) (OVal b) r;
-     kmuldiv := fun a b c r => GuardedKernels.muldiv st (OVal a) (OVal b) (OVal c) r;
+     kmul := fun a b up => unres 0 (GuardedKernels.mul st (OVal a) (OVal b) (rnd_of up));
+     kdiv := fun a b up => GuardedKernels.div st (OVal a) (OVal b) (rnd_of up);
+     kmuldiv := fun a b c up => GuardedKernels.muldiv st (OVal a) (OVal b) (OVal c) (rnd_of up);
      eqv := fun a b => res_true (GuardedKernels.dunder_eq st a (OVal b));
      ltv := fun a b => res_true (GuardedKernels.dunder_lt st a (OVal b));
      lev := fun a b => res_true (GuardedKernels.dunder_le st a (OVal b));
      gtv := fun a b => res_true (GuardedKernels.dunder_gt st a (OVal b));
      gev := fun a b => res_true (GuardedKernels.dunder_ge st a (OVal b));
      truth := fun a => res_true (GuardedKernels.dunder_bool st a);
-     vmin := GuardedKernels.min st;
+     vmin := fun x l => unres x (GuardedKernels.min st (x :: l));
      epsilon := 1;
      exact := negb (g =? 0);
-     aname := "guarded"%string;
-     ainfo := guarded_info p g (g_display st);
      str := guarded_str st;
-     raw_repr := string_of_Z;
+     raw_repr := string_of_Z |}.
+Definition GuardedMeta (p g d stale : Z) : arith_meta :=
+  let st := mk_guarded_cls p g d stale in
+  {| aname := "guarded"%string;
+     ainfo := guarded_info p g (g_display st);
      areport := guarded_report st |}.
 
 (* --------------------------------------------------------------- Rational *)
@@ -177,11 +183,10 @@ Definition Rational (dp : Z) : arith :=
      ltv := q_lt; lev := q_le;
      gtv := fun a b => q_lt b a; gev := fun a b => q_le b a;
      truth := fun a => negb (qz a);
-     vmin := py_min_by q_lt;
+     vmin := fun x l => unres x (py_min_by q_lt (x :: l));
      epsilon := 0;
      exact := true;
-     aname := "rational"%string;
-     ainfo := "rational arithmetic"%string;
      str := rational_str dp;
-     raw_repr := fun q => let r := Qred q in (string_of_Z (Qnum r) ++ "/" ++ string_of_Z (Zpos (Qden r)))%string;
-     areport := fun _ _ => EmptyString |}.
+     raw_repr := fun q => let r := Qred q in (string_of_Z (Qnum r) ++ "/" ++ string_of_Z (Zpos (Qden r)))%string |}.
+Definition RationalMeta : arith_meta :=
+  {| aname := "rational"%string; ainfo := "rational arithmetic"%string; areport := fun _ _ => EmptyString |}.
